@@ -138,6 +138,10 @@ class Walker:
         if k in ("copy", "move"):
             return self.place_expr(o["place"], env, fenv)
         if k == "const":
+            if "promoted" in o:
+                pe = self.promoted_expr(o["promoted"])
+                if pe is not None:
+                    return pe
             if "fn" in o:
                 res = o.get("res")
                 return ("fnitem", o["fn"], o["full"], res["def"] if res else None)
@@ -148,6 +152,29 @@ class Walker:
                 v = o["fv"]
             return ("const", o["ty"], o["s"], v)
         return ("unknown", "operand")
+
+    def promoted_expr(self, idx):
+        """value of a promoted constant (`&0.0`, `&[..]`): its tiny straight-line body is evaluated symbolically"""
+        proms = self.fn.j.get("promoted") or []
+        if idx >= len(proms):
+            return None
+        blocks = proms[idx]
+        env, fenv = {}, {}
+        bi = 0
+        for _ in range(64):
+            b = blocks[bi]
+            for st in b["stmts"]:
+                if st["k"] == "assign":
+                    val = self.rv_expr(st["rv"], env, fenv)
+                    self.assign(st["lhs"], val, env, fenv, [], bi)
+            t = b["term"]
+            if t["k"] == "goto":
+                bi = t["target"]
+                continue
+            if t["k"] == "return":
+                return env.get(0)
+            return None
+        return None
 
     def rv_expr(self, rv, env, fenv):
         k = rv["k"]
